@@ -15,6 +15,7 @@ Times in the trace are integers in units of 1e-7 s (TU).
 from __future__ import annotations
 
 import asyncio
+import contextvars
 import gc
 from typing import Any
 
@@ -27,6 +28,9 @@ GWY = fakes.GWY_ID
 
 def tu(t: float) -> int:
     return int(round(t * TU))
+
+
+_CUR_CMD: contextvars.ContextVar = contextvars.ContextVar("verif_cur_cmd", default=None)
 
 
 def make_cmd(kind: str, zone: int):
@@ -159,6 +163,11 @@ async def _run(sc: dict, holder: dict | None = None) -> dict:
         R.rply_txt[c["id"]] = rs
         R.ntx[c["id"]] = 0
     by_frame = {str(cmd): i for i, cmd in R.cmds.items()}
+    # two callers may hand over *equal* commands (distinct objects, identical frames - two pollers of one value):
+    # a write is then attributed through the Command object the state machine handed to its send function
+    by_obj = {id(cmd): i for i, cmd in R.cmds.items()}
+    twins = len(by_frame) < len(R.cmds)
+    last_writer: dict[str, int] = {}
     spec_of = {c["id"]: c for c in sc["callers"]}
 
     def deliver(frame: str, delay: float) -> None:
@@ -170,6 +179,11 @@ async def _run(sc: dict, holder: dict | None = None) -> dict:
 
     def on_write(t, frame: str) -> None:
         i = by_frame.get(frame, 0)
+        if twins and i:
+            i = by_obj.get(id(_CUR_CMD.get()), i)
+            last_writer[fakes.echo_of(frame)] = i
+            for rf in R.rply_txt[i]:
+                last_writer[rf] = i
         if i == 0:
             code = frame[41:45] if len(frame) > 45 else ""
             R.rec(e="Write", i=0, k="alert" if " 7FFF " in frame else "unknown", s=code)
@@ -216,6 +230,8 @@ async def _run(sc: dict, holder: dict | None = None) -> dict:
 
     def pkt_received(pkt) -> None:
         i, what = R.owner(pkt)
+        if twins and i and str(pkt) in last_writer:   # of equal commands, the one transmitted last is the one answered
+            i = last_writer[str(pkt)]
         R.rec(e="Rx", i=i, k=what)
         orig_rx(pkt)
 
@@ -234,6 +250,17 @@ async def _run(sc: dict, holder: dict | None = None) -> dict:
     proto._send_impersonation_alert = alert  # type: ignore[method-assign]
 
     R.probe_cmd = make_cmd("RQ", 15)
+
+    if twins:
+        ctx_send = proto._context.send_cmd
+
+        async def ctx_send_cmd(send_fnc, cmd, *a, **kw):
+            async def fnc(kmd):
+                _CUR_CMD.set(kmd)
+                return await send_fnc(kmd)
+            return await ctx_send(fnc, cmd, *a, **kw)
+
+        proto._context.send_cmd = ctx_send_cmd  # type: ignore[method-assign]
 
     proto.connection_made(tr, ramses=True)
     connected = {"up": True}
